@@ -61,7 +61,7 @@ Print Assumptions C02_grease_off.
    (private constants, bounds, unit factors; the files are SiteMap.files_C02) are today the ones the
    model was written against. Gen/Sites.v num_literals is regenerated from /repo on every run; a
    changed, added or removed number in a modelled function breaks this obligation ---- *)
-Require RV.Gen.Sites RV.Model.SiteMap RV.Proofs.SitesFacts.
+Require RV.Gen.Sites RV.Model.SiteMap RV.Proofs.SitesLits.
 Theorem C02_literals_reviewed : RV.Model.SiteMap.literals_ok RV.Model.SiteMap.files_C02.
-Proof. apply RV.Proofs.SitesFacts.literals_okb_sound. vm_compute. reflexivity. Qed.
+Proof. apply RV.Proofs.SitesLits.literals_okb_sound. vm_compute. reflexivity. Qed.
 Print Assumptions C02_literals_reviewed.
